@@ -211,10 +211,10 @@ class ModuleHandle(object):
 
         try:
             pkg = find(name)
-        except Exception:
+        except (Exception, SystemExit):
             # Catch all exceptions, not just ImportError.  If the __init__.py
-            # for the parent package of the module raises an exception, it'll
-            # propagate to here.
+            # for the parent package of the module raises an exception (or
+            # calls sys.exit()), it'll propagate to here.
             pkg = None
         return pkg is not None
 
